@@ -103,6 +103,33 @@ theorem blocked_gateway_not_active (c : FCfg) (id : DevIdT) (h : c.exclude.conta
     (setActiveHgi c id).active = c.active := by
   unfold setActiveHgi; simp_all
 
+/-- the active gateway after the connection is made is what the transport identified - unless that
+    id is block-listed - and nothing else -/
+theorem connectionMade_active (c : FCfg) (r : Option DevIdT) :
+    (connectionMade c r).active =
+      (match r with
+       | none => c.active
+       | some id => if c.exclude.contains id then c.active else some id) := by
+  cases r with
+  | none => rfl
+  | some id => simp only [connectionMade, setActiveHgi]; split <;> rfl
+
+/-- ... so a stick that was never identified earns no exemption: with the known list enforced, a
+    packet from the 18:000730 placeholder (or from any other unlisted id) is still filtered out on
+    receipt -/
+theorem unidentified_gateway_not_exempt (excl known : List DevIdT) (src dst : DevIdT)
+    (hk : (known ++ [allId, nonId]).contains src = false) :
+    isWanted (connectionMade ⟨excl, known, true, none⟩ none) src dst false = false := by
+  cases h : isWanted (connectionMade ⟨excl, known, true, none⟩ none) src dst false with
+  | false => rfl
+  | true =>
+    exfalso
+    have := ((isWanted_iff _ src dst false).1 h).2.2 rfl
+    have h1 := this.1
+    simp only [allowed, connectionMade, FCfg.include, Bool.false_and, Bool.or_false] at h1
+    rw [hk] at h1
+    simp at h1
+
 /-- no device object for a block-listed id (other than the gateway's own id) -/
 theorem no_device_for_blocked (c : FCfg) (unwanted : List DevIdT) (hgi : DevIdT) (gd : Option DevIdT)
     (id : DevIdT) (hb : c.exclude.contains id = true) (hne : id ≠ hgi) :
